@@ -6,7 +6,8 @@ set -u
 ID="$1"; M="$2"; SRC="${3:-/tmp/seeded-out/$ID}"
 ROOT=/verif
 WT=/tmp/verify-wt
-OUT="$ROOT/seeded/$ID-$M"
+TAG="${4:-}"
+OUT="$ROOT/seeded/$ID-$TAG$M"
 DIFF="$SRC/$M.diff"; DEMO="$SRC/${M}_demo.rs"
 [ -f "$DIFF" ] || { echo "no $DIFF"; exit 2; }
 mkdir -p "$OUT"
@@ -44,7 +45,7 @@ if [ "$res_suite" = pass ] && [ "$res_demo_with" = fail ] && [ "$res_demo_withou
   rm -rf "$ROOT/replays"
 fi
 cp "$DIFF" "$OUT/patch.diff"; cp "$DEMO" "$OUT/demo.rs"; [ -f "$SRC/$M.md" ] && cp "$SRC/$M.md" "$OUT/description.md"
-python3 - "$ID" "$M" "$res_suite" "$res_demo_with" "$res_demo_without" "$caught" "$OUT" <<'PY'
+python3 - "$ID" "$TAG$M" "$res_suite" "$res_demo_with" "$res_demo_without" "$caught" "$OUT" <<'PY'
 import json,sys
 pid,m,suite,dw,dwo,caught,out=sys.argv[1:8]
 c=caught.split()
